@@ -38,7 +38,12 @@ ExtraTexts == {"2020-01-01\n    9223372036854775807h\n",
                "2020-01-01\n    153722867280912930h7m\n    153722867280912930h7m\n",
                "99999999999999999999-01-01\n", "2020-01-01\n    99999999999999999999:00 - 9:00\n",
                "2020-01-01\n    8:00 - 9:00 " \o SymFF \o SymE4 \o SymB8 \o "\n",
-               "2020-01-01\n" \o SymF0 \o SymNUL \o "\n    1h " \o CR \o "x\n"}
+               "2020-01-01\n" \o SymF0 \o SymNUL \o "\n    1h " \o CR \o "x\n",
+               (* the first and the last representable date with times shifted beyond them *)
+               "9999-12-31\n    0:15> - 1:00>\n", "9999-12-31\n    0:15> - ?\n", "9999-12-31\n    23:00 - 0:30>\n    1h\n",
+               "0000-01-01\n    <23:00 - 1:00\n", "0000-01-01\n    <23:00 - <23:30\n    <22:00 - ?\n",
+               "0000-01-01 (8h!)\n    1h\n\n9999-12-31 (-8h!)\n    -1h\n", "9999-12-31\n    <0:00 - 23:59>\n",
+               "0000-01-02\n    <0:00 - ?\n\n9999-12-30\n    0:00> - 23:59>\n"}
 
 TextsOf(sh) ==
     IF sh.a = 0 THEN {""} \cup ExtraTexts
@@ -53,7 +58,7 @@ TextsOf(sh) ==
 
 Init == shard \in Shards /\ case = None
 Next == /\ case = None
-        /\ \E t \in TextsOf(shard) : case' = [kind |-> "fuzz", text |-> t]
+        /\ \E t \in TextsOf(shard) : case' = [kind |-> "fuzz", text |-> t, all |-> t \in ExtraTexts]
         /\ UNCHANGED shard
 
 Emit == Serialize(ToJson(case') \o "\n", Out,
